@@ -124,9 +124,9 @@ Qed.
 (* ---------- reach ---------- *)
 Lemma reach_trans s a b c : reach s a b -> reach s b c -> reach s a c.
 Proof. induction 1; intros; [assumption|]. eapply reach_step; eauto. Qed.
-Lemma reach_le s a d : Rank s -> reach s a d -> d <= a.
+Lemma reach_le s a d : AddrRank s -> reach s a d -> d <= a.
 Proof. intros HR. induction 1; [lia|]. apply HR in H. lia. Qed.
-Lemma reach_kid_lt s a k d : Rank s -> In k (skids s a) -> reach s k d -> d < a.
+Lemma reach_kid_lt s a k d : AddrRank s -> In k (skids s a) -> reach s k d -> d < a.
 Proof. intros HR Hk Hr. apply (reach_le _ _ _ HR) in Hr. apply HR in Hk. lia. Qed.
 Lemma reach_inv s a d : reach s a d -> a = d \/ exists k, In k (skids s a) /\ reach s k d.
 Proof. destruct 1; [left; reflexivity | right; eauto]. Qed.
@@ -188,28 +188,190 @@ Section TreeCid.
     - intros b k' Hb. apply Hrk. lia.
   Qed.
 
-  Lemma tree_cid_fuel s a f f' : Rank s -> a < f -> a < f' -> tree_cid H ct f s a = tree_cid H ct f' s a.
-  Proof. intros HR. apply tree_cid_local; [auto | intros b k _; apply HR]. Qed.
-
   Lemma tree_cid_pframe s s' a : pframe s s' -> tree_cid H ct (fuel_of s') s' a = tree_cid H ct (fuel_of s) s a.
   Proof.
     intros PF. rewrite (pf_fuel _ _ PF). apply tree_cid_skel. intros b.
     split; [apply (pf_cls _ _ PF) | apply (pf_fs _ _ PF)].
   Qed.
 
+End TreeCid.
+
+(* ---------- Rank (round 3): every stored child exists, no node holds itself below one of its children.
+   The few facts the proofs use: kids are live, strict descendants differ from the node, every downward chain is
+   at most |heap| long (pigeonhole), hence induction over the stored child relation and fuel irrelevance of
+   tree_cid for every fuel > |heap|. ---------- *)
+Lemma kid_parent_live s a k : In k (skids s a) -> live s a.
+Proof.
+  intros Hk. destruct (Nat.lt_ge_cases a (List.length (heap s))) as [Hl|Hl]; [exact Hl|].
+  exfalso. unfold skids in Hk. rewrite dead_cellD in Hk by (unfold live; lia). destruct Hk.
+Qed.
+Lemma addr_rank_rank s : AddrRank s -> Rank s.
+Proof.
+  intros HA. split.
+  - intros a k Hk. assert (Hl := kid_parent_live _ _ _ Hk). apply HA in Hk. unfold live in *. lia.
+  - intros a k Hk Hr. apply (reach_le _ _ _ HA) in Hr. apply HA in Hk. lia.
+Qed.
+Lemma rank_kid_live s a k : Rank s -> In k (skids s a) -> live s k.
+Proof. intros [A _]. apply A. Qed.
+Lemma rank_acyc s a k : Rank s -> In k (skids s a) -> reach s k a -> False.
+Proof. intros [_ B] Hk Hr. exact (B a k Hk Hr). Qed.
+Lemma reach_live s a x : Rank s -> live s a -> reach s a x -> live s x.
+Proof. intros HK Hl Hr. induction Hr as [a|a k d Hk Hr IH]; [exact Hl|]. apply IH. eapply rank_kid_live; eassumption. Qed.
+(* what lies below a child is not the node *)
+Lemma reach_kid_ne s a k d : Rank s -> In k (skids s a) -> reach s k d -> d <> a.
+Proof. intros HK Hk Hr ->. exact (rank_acyc _ _ _ HK Hk Hr). Qed.
+Lemma reach_antisym s a b : Rank s -> reach s a b -> reach s b a -> a = b.
+Proof.
+  intros HK Hab Hba. destruct (reach_inv _ _ _ Hab) as [E|[k [Hk Hr]]]; [exact E|].
+  exfalso. apply (rank_acyc _ _ _ HK Hk). eapply reach_trans; eassumption.
+Qed.
+Lemma rank_same_kids s s' :
+  List.length (heap s') = List.length (heap s) -> (forall b, skids s' b = skids s b) -> Rank s -> Rank s'.
+Proof.
+  intros Hlen Hsk [A B].
+  assert (Hr : forall a d, reach s' a d -> reach s a d).
+  { intros a d. induction 1; [apply reach_refl|]. eapply reach_step; [|eassumption]. rewrite <- Hsk. assumption. }
+  split.
+  - intros a k Hk. rewrite Hsk in Hk. unfold live. rewrite Hlen. apply (A a k Hk).
+  - intros a k Hk Hc. rewrite Hsk in Hk. apply (B a k Hk). apply Hr. exact Hc.
+Qed.
+(* child fields only lose entries *)
+Lemma rank_sub_kids s s' :
+  List.length (heap s) <= List.length (heap s') -> (forall b k, In k (skids s' b) -> In k (skids s b)) ->
+  Rank s -> Rank s'.
+Proof.
+  intros Hlen Hsk [A B].
+  assert (Hr : forall a d, reach s' a d -> reach s a d).
+  { intros a d. induction 1; [apply reach_refl|]. eapply reach_step; [|eassumption]. apply Hsk. assumption. }
+  split.
+  - intros a k Hk. apply Hsk in Hk. apply A in Hk. unfold live in *. lia.
+  - intros a k Hk Hc. apply Hsk in Hk. apply (B a k Hk). apply Hr. exact Hc.
+Qed.
+
+(* depth_le s n a: every chain of stored children from a has at most n links *)
+Fixpoint depth_le (s : st) (n : nat) (a : nat) : Prop :=
+  match n with
+  | 0 => forall k, ~ In k (skids s a)
+  | S m => forall k, In k (skids s a) -> depth_le s m k
+  end.
+Lemma depth_le_S s n a : depth_le s n a -> depth_le s (S n) a.
+Proof.
+  revert a. induction n; intros a Hd; simpl in *.
+  - intros k Hk. exfalso. exact (Hd k Hk).
+  - intros k Hk. apply IHn. apply Hd. exact Hk.
+Qed.
+Lemma depth_le_mono s n n' a : n <= n' -> depth_le s n a -> depth_le s n' a.
+Proof. induction 1; [auto|]. intros Hd. apply depth_le_S. auto. Qed.
+Lemma depth_le_same_kids s s' : (forall b, skids s' b = skids s b) -> forall n a, depth_le s n a -> depth_le s' n a.
+Proof.
+  intros Hsk. induction n; intros a Hd; simpl in *.
+  - intros k. rewrite Hsk. apply Hd.
+  - intros k Hk. rewrite Hsk in Hk. apply IHn. apply Hd. exact Hk.
+Qed.
+
+Lemma live_nodup_bound s (V : list nat) : NoDup V -> (forall v, In v V -> live s v) -> List.length V <= List.length (heap s).
+Proof.
+  intros Hn Hl. rewrite <- (seq_length (List.length (heap s)) 0). apply NoDup_incl_length; [exact Hn|].
+  intros v Hv. apply in_seq. apply Hl in Hv. unfold live in Hv. lia.
+Qed.
+
+(* the pigeonhole: V = the chain of distinct nodes walked so far, all of them hold a below them *)
+Lemma rank_depth_chain s : Rank s -> forall m V a,
+  NoDup V -> (forall v, In v V -> live s v /\ reach s v a /\ v <> a) -> live s a ->
+  List.length (heap s) <= List.length V + S m -> depth_le s m a.
+Proof.
+  intros HK.
+  assert (Hstep : forall V a k, NoDup V -> (forall v, In v V -> live s v /\ reach s v a /\ v <> a) -> live s a ->
+            In k (skids s a) ->
+            NoDup (a :: V) /\ (forall v, In v (a :: V) -> live s v /\ reach s v k /\ v <> k) /\ live s k).
+  { intros V a k Hn HV Hl Hk. split; [|split].
+    - constructor; [|exact Hn]. intros Hin. destruct (HV a Hin) as [_ [_ Hne]]. apply Hne; reflexivity.
+    - intros v [<-|Hv].
+      + split; [exact Hl|]. split; [eapply reach_step; [exact Hk | apply reach_refl]|].
+        intros ->. apply (rank_acyc _ _ _ HK Hk). apply reach_refl.
+      + destruct (HV v Hv) as [Hlv [Hr Hne]]. split; [exact Hlv|].
+        split; [eapply reach_trans; [exact Hr | eapply reach_step; [exact Hk | apply reach_refl]]|].
+        intros ->. exact (rank_acyc _ _ _ HK Hk Hr).
+    - eapply rank_kid_live; eassumption. }
+  induction m; intros V a Hn HV Hl Hlen; simpl.
+  - intros k Hk. destruct (Hstep V a k Hn HV Hl Hk) as [Hn' [HV' Hlk]].
+    assert (Hn2 : NoDup (k :: a :: V)).
+    { constructor; [|exact Hn']. intros Hin. destruct (HV' k Hin) as [_ [_ Hne]]. apply Hne; reflexivity. }
+    assert (Hb := live_nodup_bound s (k :: a :: V) Hn2).
+    simpl in Hb. assert (S (S (List.length V)) <= List.length (heap s)); [|lia].
+    apply Hb. intros v [<-|Hv]; [exact Hlk | apply HV'; exact Hv].
+  - intros k Hk. destruct (Hstep V a k Hn HV Hl Hk) as [Hn' [HV' Hlk]].
+    apply (IHm (a :: V) k Hn' HV' Hlk). simpl. lia.
+Qed.
+Lemma rank_depth s a : Rank s -> depth_le s (List.length (heap s)) a.
+Proof.
+  intros HK. destruct (Nat.lt_ge_cases a (List.length (heap s))) as [Hl|Hl].
+  - apply (rank_depth_chain s HK (List.length (heap s)) [] a); [constructor | intros ? [] | exact Hl | simpl; lia].
+  - apply (depth_le_mono s 0); [lia|]. simpl. intros k Hk. apply kid_parent_live in Hk. unfold live in Hk. lia.
+Qed.
+(* a child's chains are one shorter *)
+Lemma rank_depth_kid s a k : Rank s -> In k (skids s a) -> depth_le s (List.length (heap s) - 1) k.
+Proof.
+  intros HK Hk. assert (Hd := rank_depth s a HK). assert (Hl := kid_parent_live _ _ _ Hk). unfold live in Hl.
+  destruct (List.length (heap s)) as [|n]; [lia|]. simpl in *. rewrite Nat.sub_0_r. apply Hd. exact Hk.
+Qed.
+
+(* induction over the stored child relation *)
+Lemma rank_ind s (P : nat -> Prop) :
+  Rank s -> (forall a, (forall k, In k (skids s a) -> P k) -> P a) -> forall a, P a.
+Proof.
+  intros HK Hstep.
+  assert (Hn : forall n a, depth_le s n a -> P a).
+  { induction n; intros a Hd; apply Hstep; intros k Hk; simpl in Hd.
+    - exfalso. exact (Hd k Hk).
+    - apply IHn. apply Hd. exact Hk. }
+  intros a. apply (Hn _ a (rank_depth s a HK)).
+Qed.
+
+Section TreeCidRank.
+  Variable H : pystr -> pystr.
+  Variable ct : ctable.
+
+  (* tree_cid reads only what the node reaches, and any fuel above the depth will do *)
+  Lemma tree_cid_depth s s' : forall n a, depth_le s n a ->
+    (forall y, reach s a y -> c_cls (cellD s' y) = c_cls (cellD s y) /\ c_fs (cellD s' y) = c_fs (cellD s y)) ->
+    forall f f', n < f -> n < f' -> tree_cid H ct f s' a = tree_cid H ct f' s a.
+  Proof.
+    induction n; intros a Hd Hsk f f' Hf Hf';
+      (destruct f as [|f]; [lia|]); (destruct f' as [|f']; [lia|]); simpl;
+      destruct (Hsk a (reach_refl _ _)) as [Hc Hfs]; rewrite Hc; unfold props_of; rewrite Hfs; f_equal; f_equal; f_equal;
+      (assert (Ek : kid_data (tree_cid H ct f s') (cellD s' a) = kid_data (tree_cid H ct f s') (cellD s a))
+         by (unfold kid_data, sorted_kids, kids_wf; rewrite Hfs; reflexivity));
+      rewrite Ek; apply kid_data_ext; intros k Hk.
+    - exfalso. exact (Hd k Hk).
+    - apply IHn; [apply Hd; exact Hk | | lia | lia].
+      intros y Hy. apply Hsk. eapply reach_step; eassumption.
+  Qed.
+  Lemma tree_cid_reach_local s s' : Rank s -> forall a,
+    (forall y, reach s a y -> c_cls (cellD s' y) = c_cls (cellD s y) /\ c_fs (cellD s' y) = c_fs (cellD s y)) ->
+    forall f f', List.length (heap s) < f -> List.length (heap s) < f' -> tree_cid H ct f s' a = tree_cid H ct f' s a.
+  Proof. intros HK a Hsk f f' Hf Hf'. eapply tree_cid_depth; [apply rank_depth; exact HK | exact Hsk | exact Hf | exact Hf']. Qed.
+  Lemma tree_cid_fuel s a f f' :
+    Rank s -> List.length (heap s) < f -> List.length (heap s) < f' -> tree_cid H ct f s a = tree_cid H ct f' s a.
+  Proof. intros HK. apply tree_cid_reach_local; [exact HK | auto]. Qed.
+
   (* one unfolding: the stored digest of a node whose children carry their tree digests *)
-  Lemma tree_cid_unfold s a : Rank s -> live s a ->
+  Lemma tree_cid_unfold s a : Rank s ->
     tree_cid H ct (fuel_of s) s a =
     H (c_cls (cellD s a) ++ prop_data (filter (fun p => is_compare ct (c_cls (cellD s a)) (fst p)) (props_of (cellD s a)))
          ++ kid_data (tree_cid H ct (fuel_of s) s) (cellD s a)).
   Proof.
-    intros HR Hl.
+    intros HR.
     assert (E : forall f, tree_cid H ct (S f) s a =
       H (c_cls (cellD s a) ++ prop_data (filter (fun p => is_compare ct (c_cls (cellD s a)) (fst p)) (props_of (cellD s a)))
          ++ kid_data (tree_cid H ct f s) (cellD s a))) by reflexivity.
     unfold fuel_of at 1. rewrite E. f_equal. f_equal. f_equal.
-    apply kid_data_ext. intros k Hk. apply tree_cid_fuel; [assumption| |].
-    - apply HR in Hk. unfold live in Hl. lia.
-    - apply HR in Hk. unfold live, fuel_of in *. lia.
+    apply kid_data_ext. intros k Hk.
+    assert (Hd := rank_depth_kid s a k HR Hk). assert (Hl := kid_parent_live _ _ _ Hk). unfold live in Hl.
+    eapply tree_cid_depth; [exact Hd | auto | lia | unfold fuel_of; lia].
   Qed.
-End TreeCid.
+End TreeCidRank.
+
+(* the invariant of round 2 implies the invariant of round 3 *)
+Lemma inv2_old_inv2 H ct s : Inv2_old H ct s -> Inv2 H ct s.
+Proof. intros [A [B [C D]]]. split; [exact A | split; [apply addr_rank_rank; exact B | split; [exact C | exact D]]]. Qed.
